@@ -15,6 +15,7 @@ def step : List String → String
     | _, _ => "bad-op"
   | "mut" :: _ => "not-for-signer"
   | "vconv" :: _ => "skip"
+  | "ethfrom" :: _ => "skip"
   | _ => "bad-op"
 
 end Haqq.Driver.C03
